@@ -830,6 +830,10 @@ func (m *Monitors) Observe(idx int, r *Result) {
 			case ns(b.PublishedAt) <= T:
 				if a.CompletedAt == nil {
 					m.fire("C13", "not-acked", "seek to %d left delivery %s (published %d) outstanding", T, id, ns(b.PublishedAt))
+					if b.CompletedAt != nil {
+						// the seek target is not before the message: this seek rewinds nothing of it
+						m.fire("C03", "reopened-by-later-seek", "delivery %s (published %d) was acknowledged; a seek to the later time %d made it outstanding again", id, ns(b.PublishedAt), T)
+					}
 				}
 				m.Counts["seek_acked_rows"]++
 			default:
